@@ -182,3 +182,11 @@ Theorem C04_kernel_run_ps_example :
   = Some (primes_between 27000 29000).
 Proof. exact kernel_run_ps_small. Qed.
 Print Assumptions C04_kernel_run_ps_example.
+
+(** ---- list level, total: the model kernel (fuel computed from the geometry) returns, for every configuration and
+    every interval 7 <= start <= stop < 2^64, exactly the primes of the interval in ascending order; it terminates *)
+From PS Require Import Proofs.KernelTotalP Proofs.KernelListP.
+Theorem C04_erat_model_spec : forall l1 maxKB, 16 <= maxKB -> maxKB <= 8192 ->
+  forall s e, 7 <= s -> s <= e -> e <= MAX64 -> erat_model l1 maxKB s e = primes_between s e.
+Proof. exact erat_model_spec. Qed.
+Print Assumptions C04_erat_model_spec.
